@@ -156,6 +156,9 @@ def run(ctx):
                 ctx.fail("quantize() after calibrate() failed for missing statistics: " + msg[:160], case.replay(), "missing-stats")
             ctx.errkinds[type(e).__name__] = ctx.errkinds.get(type(e).__name__, 0) + 1
         fmat.cmp_pipeline(ctx, drv, case.mb, q, cr, out)
+        if out[0] == "ok":
+            # the INPUT / OUTPUT pseudo-operators that calibration honoured for a signature are honoured by quantization for THAT signature
+            fp.oracle_io_covered(ctx, case, {"q": q, "out": out[1]})
     registered_algorithm(ctx)
     drv.close()
     return common.finish(ctx)
